@@ -104,6 +104,7 @@ enum Ms {
 
 struct TopicInst {
     name: String,
+    ci: usize,
     cr: usize,
     del_i: Option<usize>,
     del_r: Option<usize>,
@@ -135,6 +136,8 @@ struct SubInst {
     req_push: Option<PushReq>,
     req_dl: i32,
     c12_checked: bool,
+    /// ack id -> message of the lease it was issued for (may be stale; always re-checked)
+    lease_by_ack: HashMap<String, u64>,
     obligations: HashSet<u64>,
     /// every ack / modify request on this subscription: (invoke idx, end idx, acked ids, (id, seconds))
     #[allow(clippy::type_complexity)]
@@ -435,6 +438,7 @@ impl<'a> Model<'a> {
                 }
             }
         }
+        self.subs[si].lease_by_ack.insert(r.ack_id.clone(), mkey);
         self.subs[si].msgs.insert(mkey, Ms::Leased { ack: r.ack_id.clone(), lo, hi, modified: false, maybe_gone, maybe_acked });
     }
 
@@ -456,7 +460,8 @@ impl<'a> Model<'a> {
                 match (0..self.subs.len()).rev().find(|i| self.subs[*i].name == sub && self.subs[*i].del_r.map(|d| d > inv).unwrap_or(true)) {
                     Some(i) => i,
                     None => {
-                        if !recvs.is_empty() {
+                        let in_flux = self.snames.get(sub).map(|n| n.flux > 0 || n.unknown).unwrap_or(false);
+                        if !recvs.is_empty() && !in_flux {
                             self.v("delivery_on_absent_subscription", &["C10", "C11"], format!("{} delivered {} message(s) although it does not exist", sub, recvs.len()));
                         }
                         return;
@@ -502,7 +507,8 @@ impl<'a> Model<'a> {
         let mut any_dead = false;
         for a in ids {
             let mut found = false;
-            for (k, st) in self.subs[si].msgs.iter_mut() {
+            let key = self.subs[si].lease_by_ack.get(a).cloned();
+            for (k, st) in self.subs[si].msgs.range_mut(key.unwrap_or(0)..=key.unwrap_or(0)) {
                 if let Ms::Leased { ack, lo, hi, maybe_acked, .. } = st {
                     if ack == a {
                         found = true;
@@ -558,7 +564,11 @@ impl<'a> Model<'a> {
         };
         let now = self.now;
         for (a, n) in mods {
-            for (k, st) in self.subs[si].msgs.iter_mut() {
+            let key = match self.subs[si].lease_by_ack.get(a) {
+                Some(k) => *k,
+                None => continue,
+            };
+            for (k, st) in self.subs[si].msgs.range_mut(key..=key) {
                 if let Ms::Leased { ack, lo, hi, maybe_gone, .. } = st {
                     if ack == a {
                         let live = now < *lo;
@@ -845,7 +855,7 @@ impl<'a> Model<'a> {
                     for a in &ack_ids {
                         let cls = if !valid_ack_id(a) {
                             3
-                        } else if self.subs[si].msgs.values().any(|m| matches!(m, Ms::Leased { ack, .. } if ack == a)) {
+                        } else if self.subs[si].lease_by_ack.get(a).and_then(|k| self.subs[si].msgs.get(k)).map(|m| matches!(m, Ms::Leased { ack, .. } if ack == a)).unwrap_or(false) {
                             0
                         } else if self.subs[si].seen_ack.contains(a) {
                             1
@@ -919,7 +929,7 @@ impl<'a> Model<'a> {
                         if echoed != name {
                             self.v("echo_mismatch", &["C18", "C10"], format!("CreateTopic({}) echoed {}", name, echoed));
                         }
-                        self.topics.push(TopicInst { name: name.clone(), cr: idx, del_i: None, del_r: None });
+                        self.topics.push(TopicInst { name: name.clone(), ci: c.invoke_idx, cr: idx, del_i: None, del_r: None });
                         let id = self.topics.len() - 1;
                         let same = self.topics.iter().filter(|t| t.name == *name).count();
                         self.rep.feat.topic_instances_same_name = self.rep.feat.topic_instances_same_name.max(same);
@@ -994,6 +1004,7 @@ impl<'a> Model<'a> {
                             req_push: push.clone(),
                             req_dl: *dl,
                             c12_checked: false,
+                            lease_by_ack: HashMap::new(),
                             obligations: HashSet::new(),
                             mutations: Vec::new(),
                         });
@@ -1007,7 +1018,7 @@ impl<'a> Model<'a> {
                         if raced {
                             self.subs[id].del_i = Some(c.invoke_idx);
                         }
-                        self.check_view(id, view, "CreateSubscription");
+                        self.check_view(id, view, "CreateSubscription", c.invoke_idx);
                         // publishes in flight right now may or may not reach it
                         let inflight: Vec<CallId> = self.inflight_pubs.iter().cloned().collect();
                         for p in inflight {
@@ -1052,7 +1063,7 @@ impl<'a> Model<'a> {
                 if let Outcome::Sub(view) = &out {
                     if let Some(si) = self.sub_definite(name) {
                         if self.subs[si].cr < c.invoke_idx {
-                            self.check_view(si, view, "GetSubscription");
+                            self.check_view(si, view, "GetSubscription", c.invoke_idx);
                         }
                     }
                 }
@@ -1062,7 +1073,7 @@ impl<'a> Model<'a> {
                     for view in subs.clone() {
                         if let Some(si) = self.sub_definite(&view.name) {
                             if self.subs[si].cr < c.invoke_idx {
-                                self.check_view(si, &view, "ListSubscriptions");
+                                self.check_view(si, &view, "ListSubscriptions", c.invoke_idx);
                             }
                         }
                     }
@@ -1225,7 +1236,7 @@ impl<'a> Model<'a> {
         }
     }
 
-    fn check_view(&mut self, si: usize, view: &SubView, what: &str) {
+    fn check_view(&mut self, si: usize, view: &SubView, what: &str, read_from: usize) {
         let s = &self.subs[si];
         let mut problems = Vec::new();
         if view.name != s.name {
@@ -1251,7 +1262,7 @@ impl<'a> Model<'a> {
             let tn = self.tnames.get(&t.name);
             let quiet = tn.map(|n| n.flux == 0 && !n.unknown).unwrap_or(false);
             if quiet {
-                if t.del_r.is_some() {
+                if t.del_r.map(|d| d < read_from).unwrap_or(false) {
                     if view.topic != "_deleted_topic_" {
                         topic_problem = Some(format!("topic reported as {} although it was deleted", view.topic));
                     }
@@ -1314,8 +1325,9 @@ impl<'a> Model<'a> {
             }
         }
         expected.sort();
+        let spans: Vec<(usize, usize, String)> = expected.iter().map(|e| (self.subs.iter().find(|s| s.name == e.1 && s.cr == e.0).map(|s| s.ci).unwrap_or(e.0), e.0, e.1.clone())).collect();
         let exp: Vec<String> = expected.into_iter().map(|e| e.1).collect();
-        if exp != names {
+        if !same_order_modulo_overlap(&spans, names) {
             self.v(
                 "topic_subscription_list",
                 &["C11", "C13"],
@@ -1627,6 +1639,35 @@ impl<'a> Model<'a> {
             let _ = dr;
         }
     }
+}
+
+/// `names` must be a permutation of the expected entries in which an entry whose creation
+/// completed before another one's began comes first (creations that overlapped may appear in
+/// either order: the order is fixed when the resource is inserted, somewhere inside the call).
+pub(crate) fn same_order_modulo_overlap(spans: &[(usize, usize, String)], names: &[String]) -> bool {
+    if spans.len() != names.len() {
+        return false;
+    }
+    let mut pos: HashMap<&str, usize> = HashMap::new();
+    for (i, n) in names.iter().enumerate() {
+        if pos.insert(n.as_str(), i).is_some() {
+            return false;
+        }
+    }
+    for s in spans {
+        if !pos.contains_key(s.2.as_str()) {
+            return false;
+        }
+    }
+    for a in spans {
+        for b in spans {
+            // a completed before b began => a must come first
+            if a.1 < b.0 && pos[a.2.as_str()] > pos[b.2.as_str()] {
+                return false;
+            }
+        }
+    }
+    true
 }
 
 fn short(a: &[(String, String)]) -> Vec<(String, String)> {
